@@ -155,7 +155,7 @@ func (fr *Frame) closureArgs(c *ssa.CallCommon) map[int]*closureVal {
 }
 
 func pureIfaceMethod(t types.Type, name string) bool {
-	ts := types.TypeString(t, nil)
+	ts := types.TypeString(types.Unalias(t), nil)
 	switch ts {
 	case "error":
 		return true
@@ -424,6 +424,26 @@ func (fr *Frame) callDynamic(fv Term, c *ssa.CallCommon, args []Term, st *State,
 	pos := site.Pos()
 	u.oblige(fr, "nil-deref", pos, fr.srcText(pos, "call of nil function"), st.pc, Neq(fv, NilLoc), false)
 	sig := c.Signature()
+	if p, isParam := c.Value.(*ssa.Parameter); isParam && fr.isRoot && fr.contract != nil && fr.contract.Callbacks != nil {
+		if cb := fr.contract.Callbacks[p.Name()]; cb != nil {
+			// the contract promises its callers facts about the state in which the callback runs: check them here
+			names := fr.baseNames(st)
+			for i, a := range args {
+				if i < sig.Params().Len() {
+					names[fmt.Sprintf("arg%d", i)] = tval{t: a, ty: sig.Params().At(i).Type()}
+				}
+			}
+			for _, cl := range cb.Invariants {
+				ctx := fr.newEvalCtx(st, fr.entry, names)
+				v, err := ctx.eval(cl.E)
+				if err != nil || v.t.Sort != SBool {
+					u.bindErrors = append(u.bindErrors, fmt.Sprintf("%s callback %s assume %q: %v", fr.key, p.Name(), cl.Text, err))
+					continue
+				}
+				u.oblige(fr, "cb-assume", pos, fmt.Sprintf("callback %s is invoked in a state satisfying %s", p.Name(), cl.Text), st.pc, v.t, false)
+			}
+		}
+	}
 	if key, ok := u.pureFnTerms[fv.S]; ok {
 		// declared "typeinv purefunc": injected callback without effect on emulator state (listed assumption)
 		u.typeInvUsed[key+"()"]++
